@@ -13,28 +13,28 @@ Local Opaque fld set_fld widen16 get_field field_type known_msg mesg_all_invalid
 (* gi1, gi2: the accumulators at the start of the two runs *)
 Definition drel (gi1 gi2 : gstate) (s1 s2 : dstate) : Prop :=
   ds_defs s1 = ds_defs s2 /\ ds_ts s1 = ds_ts s2 /\ ds_lastoff s1 = ds_lastoff s2 /\
-  ds_unkf s1 = ds_unkf s2 /\ ds_unkm s1 = ds_unkm s2 /\ ds_quirks s1 = ds_quirks s2 /\
+  ds_unkf s1 = ds_unkf s2 /\ ds_unkm s1 = ds_unkm s2 /\ ds_quirks s1 = ds_quirks s2 /\ ds_hasts s1 = ds_hasts s2 /\
   file_sim (ds_file s1) (ds_file s2) /\ gwf (ds_g s1) /\ gwf (ds_g s2) /\
   (g_dist (ds_g s1) = None -> g_dist gi1 = None /\ ds_file s1 = ds_file s2 /\ g_dist (ds_g s2) = g_dist gi2) /\
   (ds_g s1 = g_init -> gi1 = g_init /\ ds_file s1 = ds_file s2 /\ ds_g s2 = gi2).
 
-Lemma drel_mk gi1 gi2 d t l uf um q f1 f2 g1 g2 :
+Lemma drel_mk gi1 gi2 d t l uf um q hs f1 f2 g1 g2 :
   file_sim f1 f2 -> gwf g1 -> gwf g2 ->
   (g_dist g1 = None -> g_dist gi1 = None /\ f1 = f2 /\ g_dist g2 = g_dist gi2) ->
   (g1 = g_init -> gi1 = g_init /\ f1 = f2 /\ g2 = gi2) ->
-  drel gi1 gi2 (mk_dstate d t l uf um f1 g1 q) (mk_dstate d t l uf um f2 g2 q).
-Proof. unfold drel; cbn [ds_defs ds_ts ds_lastoff ds_unkf ds_unkm ds_file ds_g ds_quirks]. intuition. Qed.
+  drel gi1 gi2 (mk_dstate d t l uf um f1 g1 q hs) (mk_dstate d t l uf um f2 g2 q hs).
+Proof. unfold drel; cbn [ds_defs ds_ts ds_lastoff ds_unkf ds_unkm ds_file ds_g ds_quirks ds_hasts]. intuition. Qed.
 
 Ltac dr H s1 s2 :=
   let d1 := fresh "d" in let t1 := fresh "t" in let l1 := fresh "lo" in let uf1 := fresh "uf" in
-  let um1 := fresh "um" in let f1 := fresh "fa" in let g1 := fresh "ga" in let q1 := fresh "q" in
+  let um1 := fresh "um" in let f1 := fresh "fa" in let g1 := fresh "ga" in let q1 := fresh "q" in let h1 := fresh "hs" in
   let d2 := fresh "d" in let t2 := fresh "t" in let l2 := fresh "lo" in let uf2 := fresh "uf" in
-  let um2 := fresh "um" in let f2 := fresh "fb" in let g2 := fresh "gb" in let q2 := fresh "q" in
-  destruct s1 as [d1 t1 l1 uf1 um1 f1 g1 q1]; destruct s2 as [d2 t2 l2 uf2 um2 f2 g2 q2];
-  unfold drel in H; cbn [ds_defs ds_ts ds_lastoff ds_unkf ds_unkm ds_file ds_g ds_quirks] in H;
+  let um2 := fresh "um" in let f2 := fresh "fb" in let g2 := fresh "gb" in let q2 := fresh "q" in let h2 := fresh "hs" in
+  destruct s1 as [d1 t1 l1 uf1 um1 f1 g1 q1 h1]; destruct s2 as [d2 t2 l2 uf2 um2 f2 g2 q2 h2];
+  unfold drel in H; cbn [ds_defs ds_ts ds_lastoff ds_unkf ds_unkm ds_file ds_g ds_quirks ds_hasts] in H;
   let HF := fresh "HF" in let HW1 := fresh "HWa" in let HW2 := fresh "HWb" in
   let HT1 := fresh "HTa" in let HT2 := fresh "HTb" in
-  destruct H as (? & ? & ? & ? & ? & ? & HF & HW1 & HW2 & HT1 & HT2); subst d2 t2 l2 uf2 um2 q2.
+  destruct H as (? & ? & ? & ? & ? & ? & ? & HF & HW1 & HW2 & HT1 & HT2); subst d2 t2 l2 uf2 um2 q2 h2.
 
 Ltac ps :=
   repeat match goal with
@@ -68,11 +68,11 @@ Lemma pts_rel gi1 gi2 s1 s2 u k n : drel gi1 gi2 s1 s2 ->
   fst (parse_time_stamp s1 u k n) = fst (parse_time_stamp s2 u k n) /\
   drel gi1 gi2 (snd (parse_time_stamp s1 u k n)) (snd (parse_time_stamp s2 u k n)).
 Proof.
-  intro H. dr H s1 s2. unfold parse_time_stamp. cbn [ds_defs ds_ts ds_lastoff ds_unkf ds_unkm ds_file ds_g ds_quirks].
+  intro H. dr H s1 s2. unfold parse_time_stamp. cbn [ds_defs ds_ts ds_lastoff ds_unkf ds_unkm ds_file ds_g ds_quirks ds_hasts].
   destruct (u =? 4294967295); [cbn [fst snd]; split; [reflexivity|apply drel_mk; assumption]|].
   destruct (k =? kind_timeutc).
   - destruct (n =? c_fieldNumTimeStamp); cbn [fst snd]; (split; [reflexivity|apply drel_mk; assumption]).
-  - destruct ((t =? 0) || (t <? c_systemTimeMarker)); cbn [fst snd]; (split; [reflexivity|apply drel_mk; assumption]).
+  - destruct (negb hs || (t <? c_systemTimeMarker)); cbn [fst snd]; (split; [reflexivity|apply drel_mk; assumption]).
 Qed.
 
 Lemma ps_pof gi1 gi2 o dm known fd msgv :
@@ -83,7 +83,7 @@ Proof.
   - destruct (get_field (dm_gmn dm) (fd_num fd)).
     + ps.
     + destruct (known && o_unkf o); [|ps]. cbn [bind]. apply ps_get. intros s1 s2 H. dr H s1 s2.
-      unfold with_unkf; cbn [ds_defs ds_ts ds_lastoff ds_unkf ds_unkm ds_file ds_g ds_quirks].
+      unfold with_unkf; cbn [ds_defs ds_ts ds_lastoff ds_unkf ds_unkm ds_file ds_g ds_quirks ds_hasts].
       apply ps_put; [apply drel_mk; assumption|ps].
   - intros _. cbn [bind]. apply ps_full. intro buf.
     destruct (get_field (dm_gmn dm) (fd_num fd)) as [p|]; [|ps].
@@ -118,19 +118,19 @@ Lemma ps_pdm gi1 gi2 o b compressed :
   psim (drel gi1 gi2) eq (parse_data_message o b compressed) (parse_data_message o b compressed).
 Proof.
   unfold parse_data_message, get_st, put_st, fail, panic. cbv zeta. cbn [bind].
-  apply ps_get. intros s1 s2 H. dr H s1 s2. cbn [ds_defs ds_ts ds_lastoff ds_unkf ds_unkm ds_file ds_g ds_quirks].
+  apply ps_get. intros s1 s2 H. dr H s1 s2. cbn [ds_defs ds_ts ds_lastoff ds_unkf ds_unkm ds_file ds_g ds_quirks ds_hasts].
   destruct (nth _ d None) as [dm|]; [|ps].
   apply psim_bind_eq.
   - destruct (known_msg (dm_gmn dm)).
     + ps.
     + apply psim_bind_eq; [|intro; ps]. destruct (o_unkm o); [|ps].
-      unfold with_unkm; cbn [ds_defs ds_ts ds_lastoff ds_unkf ds_unkm ds_file ds_g ds_quirks].
+      unfold with_unkm; cbn [ds_defs ds_ts ds_lastoff ds_unkf ds_unkm ds_file ds_g ds_quirks ds_hasts].
       apply ps_put; [apply drel_mk; assumption|ps].
   - intro msgv. destruct (negb compressed); [apply ps_pdf|].
-    cbn [bind]. apply ps_get. intros s1 s2 H. dr H s1 s2. cbn [ds_defs ds_ts ds_lastoff ds_unkf ds_unkm ds_file ds_g ds_quirks].
-    destruct (t0 =? 0); [apply ps_pdf|].
-    unfold with_time, with_quirk; cbn [ds_defs ds_ts ds_lastoff ds_unkf ds_unkm ds_file ds_g ds_quirks]. cbn [bind].
-    apply ps_put; [match goal with |- drel _ _ (if ?c then _ else _) _ => destruct c end; apply drel_mk; assumption|].
+    cbn [bind]. apply ps_get. intros s1 s2 H. dr H s1 s2. cbn [ds_defs ds_ts ds_lastoff ds_unkf ds_unkm ds_file ds_g ds_quirks ds_hasts].
+    destruct (negb hs0); [apply ps_pdf|].
+    unfold with_time; cbn [ds_defs ds_ts ds_lastoff ds_unkf ds_unkm ds_file ds_g ds_quirks ds_hasts]. cbn [bind].
+    apply ps_put; [apply drel_mk; assumption|].
     destruct (get_field (dm_gmn dm) c_fieldNumTimeStamp) as [p|]; [|apply ps_pdf].
     destruct msgv as [m|]; [|ps]. destruct (field_type _ _) as [ty|]; [|ps].
     destruct (set_time ty _); [apply ps_pdf|ps].
@@ -139,11 +139,11 @@ Qed.
 Lemma ps_add gi1 gi2 m : psim (drel gi1 gi2) eq (add_msg m) (add_msg m).
 Proof.
   unfold add_msg, get_st, put_st, panic. cbn [bind]. apply ps_get. intros s1 s2 H. dr H s1 s2.
-  cbn [ds_defs ds_ts ds_lastoff ds_unkf ds_unkm ds_file ds_g ds_quirks].
+  cbn [ds_defs ds_ts ds_lastoff ds_unkf ds_unkm ds_file ds_g ds_quirks ds_hasts].
   pose proof (file_add_rel fa fb ga gb m HF HWa HWb) as K.
   destruct (file_add fa ga m) as [fa' ga'|w1], (file_add fb gb m) as [fb' gb'|w2]; cbn [add_rel] in K; try contradiction.
   - destruct K as (A & B & C & D & E).
-    unfold with_file; cbn [ds_defs ds_ts ds_lastoff ds_unkf ds_unkm ds_file ds_g ds_quirks].
+    unfold with_file; cbn [ds_defs ds_ts ds_lastoff ds_unkf ds_unkm ds_file ds_g ds_quirks ds_hasts].
     apply ps_put; [|ps]. apply drel_mk; try assumption.
     + intro X. destruct (D X) as (D1 & D2 & D3). destruct (HTa D1) as (T1 & T2 & T3).
       split; [exact T1|]. split; [apply D2; exact T2|]. rewrite D3. exact T3.
@@ -155,7 +155,7 @@ Qed.
 Lemma ps_setdef gi1 gi2 dm : psim (drel gi1 gi2) eq (set_def dm) (set_def dm).
 Proof.
   unfold set_def, get_st, put_st. cbn [bind]. apply ps_get. intros s1 s2 H. dr H s1 s2.
-  unfold with_defs; cbn [ds_defs ds_ts ds_lastoff ds_unkf ds_unkm ds_file ds_g ds_quirks].
+  unfold with_defs; cbn [ds_defs ds_ts ds_lastoff ds_unkf ds_unkm ds_file ds_g ds_quirks ds_hasts].
   apply ps_put; [apply drel_mk; assumption|ps].
 Qed.
 
@@ -192,11 +192,11 @@ Qed.
 Lemma ps_init gi1 gi2 : psim (drel gi1 gi2) eq do_init do_init.
 Proof.
   unfold do_init, get_st, put_st, fail. cbn [bind]. apply ps_get. intros s1 s2 H. dr H s1 s2.
-  cbn [ds_defs ds_ts ds_lastoff ds_unkf ds_unkm ds_file ds_g ds_quirks].
+  cbn [ds_defs ds_ts ds_lastoff ds_unkf ds_unkm ds_file ds_g ds_quirks ds_hasts].
   pose proof (file_init_rel fa fb HF) as K.
   destruct (file_init fa) as [fa'|], (file_init fb) as [fb'|]; try contradiction; [|ps].
   destruct K as [K1 K2].
-  unfold with_file; cbn [ds_defs ds_ts ds_lastoff ds_unkf ds_unkm ds_file ds_g ds_quirks].
+  unfold with_file; cbn [ds_defs ds_ts ds_lastoff ds_unkf ds_unkm ds_file ds_g ds_quirks ds_hasts].
   apply ps_put; [|ps]. apply drel_mk; try assumption.
   - intro X. destruct (HTa X) as (T1 & T2 & T3). auto.
   - intro X. destruct (HTb X) as (T1 & T2 & T3). auto.
@@ -237,7 +237,7 @@ Lemma finalize_rel o gi1 gi2 s1 s2 : drel gi1 gi2 s1 s2 ->
   file_sim (finalize_unknown o s1) (finalize_unknown o s2) /\
   (ds_file s1 = ds_file s2 -> finalize_unknown o s1 = finalize_unknown o s2).
 Proof.
-  intro H. dr H s1 s2. unfold finalize_unknown. cbn [ds_defs ds_ts ds_lastoff ds_unkf ds_unkm ds_file ds_g ds_quirks].
+  intro H. dr H s1 s2. unfold finalize_unknown. cbn [ds_defs ds_ts ds_lastoff ds_unkf ds_unkm ds_file ds_g ds_quirks ds_hasts].
   split.
   - destruct HF as (A & B & C & D & E & F). unfold file_sim; cbn [f_header f_crc f_slots f_inited f_unkm f_unkf].
     rewrite E, F. auto 10.
@@ -250,7 +250,7 @@ Lemma dres_of_state o gi1 gi2 s1 s2 e h rd : drel gi1 gi2 s1 s2 ->
 Proof.
   intro H. destruct (finalize_rel o _ _ _ _ H) as [F1 F2].
   unfold dres_rel; cbn [dr_err dr_hdr dr_file dr_rd dr_g dr_quirks ofile_sim].
-  destruct H as (_ & _ & _ & _ & _ & Q & _ & W1 & W2 & T1 & T2).
+  destruct H as (_ & _ & _ & _ & _ & Q & _ & _ & W1 & W2 & T1 & T2).
   split; [reflexivity|]. split; [reflexivity|]. split; [reflexivity|]. split; [exact Q|]. split; [exact F1|].
   split; [exact W1|]. split; [exact W2|]. split.
   - intro X. destruct (T1 X) as (A & B & C). split; [exact A|]. split; [f_equal; apply F2; exact B|exact C].
@@ -260,7 +260,7 @@ Qed.
 Lemma drel_set_crc gi1 gi2 s1 s2 c : drel gi1 gi2 s1 s2 ->
   drel gi1 gi2 (with_file s1 (set_crc (ds_file s1) c) (ds_g s1)) (with_file s2 (set_crc (ds_file s2) c) (ds_g s2)).
 Proof.
-  intro H. dr H s1 s2. unfold with_file, set_crc. cbn [ds_defs ds_ts ds_lastoff ds_unkf ds_unkm ds_file ds_g ds_quirks].
+  intro H. dr H s1 s2. unfold with_file, set_crc. cbn [ds_defs ds_ts ds_lastoff ds_unkf ds_unkm ds_file ds_g ds_quirks ds_hasts].
   apply drel_mk; try assumption.
   - destruct HF as (A & B & C & D & E & F). unfold file_sim; cbn [f_header f_crc f_slots f_inited f_unkm f_unkf]. auto 10.
   - intro X. destruct (HTa X) as (T1 & T2 & T3). subst fb. auto.
